@@ -32,6 +32,9 @@ var qWrapRe = regexp.MustCompile(`^q (.*) Q$`)
 func stripQ(s string) string {
 	s = strings.TrimSpace(s)
 	for {
+		if s == "q Q" {
+			return "" // a save/restore pair around nothing
+		}
 		m := qWrapRe.FindStringSubmatch(s)
 		if m == nil {
 			return s
@@ -214,28 +217,44 @@ func runC38(r *core.R) {
 			r.Sample(rep)
 		}
 	})
-	// add -> add -> remove
+	// add -> add -> remove: both orders of background watermark and stamp, the second one on all pages or on page 1
 	for dn, b := range docs {
-		wm1, _ := api.TextWatermark("ONE", "pos:tl", true, false, types.POINTS)
-		wm2, _ := api.TextWatermark("TWO", "pos:br", false, false, types.POINTS)
-		var d1, d2, d3 bytes.Buffer
-		r.Eval(1)
-		r.Nontrivial(1)
-		if err := api.AddWatermarks(bytes.NewReader(b), &d1, nil, wm1, newConf()); err != nil {
-			r.Violation("addadd:first-failed", fmt.Sprintf("%s: %v", dn, err), nil)
-			continue
-		}
-		if err := api.AddWatermarks(bytes.NewReader(d1.Bytes()), &d2, []string{"1"}, wm2, newConf()); err != nil {
-			r.Count("second_add_refused", 1)
-			d2 = d1
-		}
-		if err := api.RemoveWatermarks(bytes.NewReader(d2.Bytes()), &d3, nil, newConf()); err != nil {
-			r.Violation("addadd:remove-failed", fmt.Sprintf("%s: %v", dn, err), nil)
-			continue
-		}
-		cs, _, _, err := view(d3.Bytes())
-		if err != nil || fmt.Sprint(cs) != fmt.Sprint(orig[dn]) {
-			r.Violation("addadd:content-differs:"+dn, fmt.Sprintf("%s after add,add,remove: %q vs original %q (%v)", dn, cs, orig[dn], err), map[string]any{"doc": dn})
+		for _, top1 := range []bool{false, true} {
+			for _, top2 := range []bool{false, true} {
+				for _, sel2 := range [][]string{nil, {"1"}} {
+					wm1, _ := api.TextWatermark("ONE", "pos:tl", top1, false, types.POINTS)
+					wm2, _ := api.TextWatermark("TWO", "pos:br", top2, false, types.POINTS)
+					var d1, d2, d3 bytes.Buffer
+					r.Eval(1)
+					r.Nontrivial(1)
+					cfg := fmt.Sprintf("%s: first onTop=%v, second onTop=%v on %v", dn, top1, top2, sel2)
+					rep := map[string]any{"doc": dn, "first_on_top": top1, "second_on_top": top2, "second_selection": sel2}
+					var err error
+					if pv, _ := core.Try(func() { err = api.AddWatermarks(bytes.NewReader(b), &d1, nil, wm1, newConf()) }); pv != nil || err != nil {
+						r.Violation("addadd:first-failed", fmt.Sprintf("%s: %v %v", cfg, err, pv), rep)
+						continue
+					}
+					if pv, _ := core.Try(func() { err = api.AddWatermarks(bytes.NewReader(d1.Bytes()), &d2, sel2, wm2, newConf()) }); pv != nil {
+						r.Violation("addadd:second-add-panicked", fmt.Sprintf("%s: %v", cfg, pv), rep)
+						continue
+					} else if err != nil {
+						r.Count("second_add_refused", 1)
+						d2 = d1
+					}
+					if pv, _ := core.Try(func() { err = api.RemoveWatermarks(bytes.NewReader(d2.Bytes()), &d3, nil, newConf()) }); pv != nil || err != nil {
+						if r.Want("addadd:remove-failed") {
+							r.Violation("addadd:remove-failed", fmt.Sprintf("%s: %v %v", cfg, err, pv), rep)
+						}
+						continue
+					}
+					cs, _, _, err := view(d3.Bytes())
+					if err != nil || fmt.Sprint(cs) != fmt.Sprint(orig[dn]) {
+						if r.Want("addadd:content-differs:" + dn) {
+							r.Violation("addadd:content-differs:"+dn, fmt.Sprintf("%s after add,add,remove: %q vs original %q (%v)", cfg, cs, orig[dn], err), rep)
+						}
+					}
+				}
+			}
 		}
 	}
 }
